@@ -223,8 +223,18 @@ func (t *Trimmer) markServiceExtends(svc *parser.Service) {
 	}
 }
 
+func (t *Trimmer) keepServiceExtends(svc *parser.Service) {
+	if t.extKeep == nil {
+		t.extKeep = make(map[*parser.Service]struct{})
+	}
+	t.extKeep[svc] = struct{}{}
+}
+
 func (t *Trimmer) cleanServiceExtends() {
 	for _, svc := range t.extServices {
+		if _, keep := t.extKeep[svc]; keep {
+			continue
+		}
 		svc.Reference = nil
 		svc.Extends = ""
 	}
@@ -308,6 +318,9 @@ func (t *Trimmer) traceExtendMethod(fathers []*parser.Service, svc *parser.Servi
 		back := t.traceExtendMethod(append(fathers, nextSvc), nextSvc, nextAst, filename)
 		if !back {
 			t.markServiceExtends(svc)
+		} else {
+			// some kept method is inherited through svc: its extends must survive cleanServiceExtends
+			t.keepServiceExtends(svc)
 		}
 		ret = back || ret
 	}
